@@ -249,7 +249,7 @@ def run_case(case):
             else:
                 md = manager_dict(kind, proj, base, copy.deepcopy(scenarios), True)
                 b.register_scenario_manager({sm: md})
-        elif channel in ("file", "two-files"):
+        elif channel in ("file", "two-files", "two-files-rev"):
             md = manager_dict(kind, proj, base, copy.deepcopy(scenarios), True)
             if channel == "file":
                 with open(os.path.join(proj.dir, "scenarios", "a.json"), "w") as f:
@@ -261,12 +261,16 @@ def run_case(case):
                 second = {"model": md["model"], "scenarios": {"s1": md["scenarios"]["s1"]}}
                 if "source" in md:
                     second["source"] = md["source"]
-                with open(os.path.join(proj.dir, "scenarios", "a.json"), "w") as f:
+                # (two-files-rev: the other way round, so that whichever file the library reads first, one of the two channels has the
+                # scenarios-only file in front of the file with the base values)
+                fa, fb = ("a.json", "b.json") if channel == "two-files" else ("b.json", "a.json")
+                with open(os.path.join(proj.dir, "scenarios", fa), "w") as f:
                     json.dump({sm: first}, f)
-                with open(os.path.join(proj.dir, "scenarios", "b.json"), "w") as f:
+                with open(os.path.join(proj.dir, "scenarios", fb), "w") as f:
                     json.dump({sm: second}, f)
             b = core.new_bptk_here()
-        elif channel in ("session", "rest", "session-after-run", "rest-after-run"):
+        elif channel in ("session", "rest", "session-after-run", "rest-after-run", "rest-after-run+unknown-scenario-before", "rest-after-run+unknown-scenario-behind",
+                         "rest-after-run+unknown-manager-before", "rest-after-run+unknown-manager-behind"):
             b = core.new_bptk_here()
             if kind == "dsl":
                 model = proj.dsl_model()
@@ -282,8 +286,17 @@ def run_case(case):
             if kind == "xmile" and "points" in st:
                 st["points"] = {"g": st["points"]["lk"]}
             settings = {sm: {"s1": st}}
+            # next to the valid entry the settings name something that does not exist (the server skips what it cannot find); its key sorts
+            # before or behind the valid one (Flask writes JSON objects with sorted keys; the order of the keys must not matter)
+            if "+unknown-" in channel:
+                channel, _, what = channel.partition("+unknown-")
+                nm = ("aa_" if what.endswith("before") else "zz_") + "no_such"
+                if what.startswith("scenario"):
+                    settings[sm][nm] = copy.deepcopy(st)
+                else:
+                    settings[nm] = {"s1": copy.deepcopy(st)}
         # ---- observe
-        if channel in ("dict", "register_model", "file", "two-files"):
+        if channel in ("dict", "register_model", "file", "two-files", "two-files-rev"):
             for name, eff in (("s1", eff1), ("s0", eff0)):
                 df = b.run_scenarios(scenarios=[name], scenario_managers=[sm], equations=list(eqs), return_format="df")
                 viol += [(c, d) for c, d in compare(df, eff, kind, "scenario %s" % name)]
@@ -345,7 +358,9 @@ def run_case(case):
 
 def cases(tier):
     out = []
-    for channel in ("dict", "register_model", "file", "two-files", "session", "rest", "session-after-run", "rest-after-run"):
+    for channel in ("dict", "register_model", "file", "two-files", "two-files-rev", "session", "rest", "session-after-run", "rest-after-run",
+                    "rest-after-run+unknown-scenario-before", "rest-after-run+unknown-scenario-behind",
+                    "rest-after-run+unknown-manager-before", "rest-after-run+unknown-manager-behind"):
         for base in BASES:
             for setting in SETTINGS:
                 out.append(("dsl", channel, base, setting))
@@ -373,7 +388,7 @@ def run(ctx):
                 ctx.violation("C07/%s/%s/%s/%s/%s" % (clause, c[0], c[1], c[2], c[3]), {"case": list(c)}, detail)
     ctx.finish({
         "evaluations": len(cs), "distinct_nontrivial": n,
-        "rule": "complete product model kind {dsl, xmile} x channel {dict, register_model, file, two-files, session, rest, session-after-run, rest-after-run} x manager base values "
+        "rule": "complete product model kind {dsl, xmile} x channel {dict, register_model, file, two-files, two-files-rev, session, rest, session-after-run, rest-after-run, rest-after-run with an entry for an unknown scenario / manager before / behind the valid one} x manager base values "
                 "{none, constants, points, both} x scenario setting {none, constant(s), points, constant+points, start, stop, dt, all run specs, all}; "
                 "run specs for DSL models only; per case the overriding scenario s1 and its sibling s0 are compared with the direct build",
         "samples": [list(c) for c in cs[:3]] + [list(cs[len(cs) // 2])],
